@@ -215,3 +215,31 @@ pub fn px(bits: u32, n: u32) -> u64 {
 pub fn px_closed(bits: u32, n: u32) -> bool {
     n == 32 || (bits << n) == 0
 }
+
+// ---------------------------------------------------------------------------------------------
+// leaf contracts of the decode / encode helpers
+/// `separate_bits_tmp(bits) = (k, tmp)` for a positive magnitude 0 < bits < 2^(n-1): k is the regime value,
+/// tmp holds (bit n-1 = 0 | es exponent bits | fraction bits) left-aligned in n bits
+pub fn septmp_ok(bits: u64, k: i32, tmp: u64, n: u32, es: u32) -> bool {
+    let (m, e) = decode_pos(bits, n, es);
+    let scale = e + 32;
+    let ks = scale >> es;
+    let exp = (scale - (ks << es)) as u64;
+    let fb = n - 1 - es; // fraction field width inside tmp
+    let frac32 = m & 0xffff_ffff;
+    k == ks && tmp == ((exp << fb) | (frac32 >> (32 - fb)))
+}
+/// `calculate_regime(k) = (regime, reg_s, reg_len)`: the regime field for regime value k inside an n-bit word:
+/// reg_len identical bits then a terminator, starting just below the sign bit (bits that do not fit are cut)
+pub fn regime_ok(k: i32, regime: u64, reg_s: bool, reg_len: u32, n: u32) -> bool {
+    let maxp = maxpos(n);
+    if k < 0 {
+        let len = (-k) as u32;
+        let want = if len > n - 2 { 0 } else { 1u64 << (n - 2 - len) };
+        !reg_s && reg_len == len && regime == want
+    } else {
+        let len = (k + 1) as u32;
+        let want = if len >= n - 1 { maxp } else { maxp - (maxp >> len) };
+        reg_s && reg_len == len && regime == want
+    }
+}
